@@ -28,6 +28,7 @@ func Gen(t *rapid.T) *Case {
 		}
 		h.Seq = rapid.IntRange(0, 3).Draw(t, "seq") == 0
 		h.Yield = rapid.IntRange(0, 2).Draw(t, "yield")
+		h.Replay = !h.Ctx && c.Store != "" && rapid.IntRange(0, 1).Draw(t, "replaySub") == 0
 		c.Handlers = append(c.Handlers, h)
 	}
 	// a nested publish of the same type into a synchronous Sequential handler is the documented self-deadlock
@@ -51,6 +52,7 @@ func Gen(t *rapid.T) *Case {
 			p.NVals = rapid.IntRange(0, 3).Draw(t, "nvals")
 			p.Foreign = rapid.IntRange(0, 2).Draw(t, "foreign") == 0
 		}
+		p.Any = rapid.IntRange(0, 3).Draw(t, "viaAny") == 0
 		c.Pubs = append(c.Pubs, p)
 	}
 	return c
